@@ -658,6 +658,6 @@ def twin(rng, m):
             f["expr"] = add(mul(const(rng.choice([2, 3])), f["expr"]), const(rng.choice([1, -2, 5])))
         elif f["kind"] == "next" and f["name"] in ("next_w", "next_z"):
             f["expr"] = ["sub", f["expr"], const(F(1, 2))]
-        elif f["kind"] == "aux" and f["name"] == "inc":
-            f["expr"] = add(f["expr"], const(1))
+        elif f["kind"] == "aux" and (f["name"] == "inc" or f.get("alias_of") == "inc"):
+            f["expr"] = add(f["expr"], const(1))      # (an alias shares the function object: same body)
     return mm
